@@ -87,6 +87,7 @@ Proof.
     destruct (existsb (N.eqb id) v2'); split; try reflexivity; eqv.
   - split; [|eqv]. apply observe_equiv. eqv.
   - split; [reflexivity|]. unfold restart, load. cbn. eqv.
+  - split; [reflexivity | eqv].
 Qed.
 
 Lemma observations_equiv : forall l s1 s2, sequiv s1 s2 -> observations s1 l = observations s2 l.
